@@ -515,6 +515,20 @@ func sameNode(a, b datamodel.Node) (same bool) {
 	return a == b
 }
 
+// containsIndex reports whether some interest names the list element at the candidate's index.
+func containsIndex(interest []datamodel.PathSegment, candidate datamodel.PathSegment) bool {
+	idx, err := candidate.Index()
+	if err != nil {
+		return false
+	}
+	for _, i := range interest {
+		if ii, err := i.Index(); err == nil && ii == idx {
+			return true
+		}
+	}
+	return false
+}
+
 func contains(interest []datamodel.PathSegment, candidate datamodel.PathSegment) bool {
 	for _, i := range interest {
 		if i.Equals(candidate) { // (not ==: list iteration yields int segments, ExploreFields interests are strings)
@@ -522,6 +536,43 @@ func contains(interest []datamodel.PathSegment, candidate datamodel.PathSegment)
 		}
 	}
 	return false
+}
+
+// exploreListElement asks the selector about a list element on behalf of every interest that names it. An
+// interest names the element whose index its segment parses to, exactly as a lookup by that segment on the
+// list resolves it ("+1" and "01" are element 1), and the selector is asked about the interest's own segment
+// (ExploreFields is keyed by it). Several interests naming one element combine like the members of a union.
+// It returns the segment to report in paths along with the selector (nil: the element is not explored).
+func exploreListElement(n datamodel.Node, s selector.Selector, interest []datamodel.PathSegment, candidate datamodel.PathSegment) (datamodel.PathSegment, selector.Selector, error) {
+	idx, err := candidate.Index()
+	if err != nil {
+		return candidate, nil, nil
+	}
+	ps := candidate
+	var found []selector.Selector
+	for _, i := range interest {
+		if ii, err := i.Index(); err != nil || ii != idx {
+			continue
+		}
+		sNext, err := s.Explore(n, i)
+		if err != nil {
+			return candidate, nil, err
+		}
+		if sNext != nil {
+			if len(found) == 0 {
+				ps = i
+			}
+			found = append(found, sNext)
+		}
+	}
+	switch len(found) {
+	case 0:
+		return ps, nil, nil
+	case 1:
+		return ps, found[0], nil
+	default:
+		return ps, selector.ExploreUnion{Members: found}, nil
+	}
 }
 
 func (prog Progress) walk_transform_iterateList(n datamodel.Node, s selector.Selector, fn TransformFn, attn []datamodel.PathSegment) (datamodel.Node, error) {
@@ -535,8 +586,13 @@ func (prog Progress) walk_transform_iterateList(n datamodel.Node, s selector.Sel
 		if err != nil {
 			return nil, err
 		}
-		if attn == nil || contains(attn, ps) {
-			sNext, err := s.Explore(n, ps)
+		if attn == nil || containsIndex(attn, ps) {
+			var sNext selector.Selector
+			if attn == nil {
+				sNext, err = s.Explore(n, ps)
+			} else {
+				ps, sNext, err = exploreListElement(n, s, attn, ps)
+			}
 			if err != nil {
 				return nil, err
 			}
